@@ -8,6 +8,8 @@ package props
 import (
 	"encoding/json"
 	"fmt"
+	"io"
+	"net/http"
 	"os"
 	"runtime"
 	"strings"
@@ -58,6 +60,10 @@ type c13Scenario struct {
 	// StreamsEnd (interface-level client, state idle): nobody calls Close(); every vBucket stream ends for good (clean end)
 	// and the client stops by itself
 	StreamsEnd bool `json:"streams_end,omitempty"`
+	// ScrapeInClose (API on, interface-level client): a metrics scrape (GET /metrics of the client's own API) is waiting for
+	// the answer of its sequence-number query when Close() arrives; the answer comes while Close() is between tearing the
+	// observers down and marking the stream closed (inside the AfterStreamStop callback)
+	ScrapeInClose bool `json:"scrape_in_close,omitempty"`
 }
 
 type c13Result struct {
@@ -159,6 +165,9 @@ func c13Child(raw json.RawMessage) any {
 		version = &couchbase.Version{Major: 5, Minor: 0}
 		cl.mu.Lock()
 		cl.endOnClose = true // every close is followed by STREAM_END(closed), as the node / gocbcore do
+		// ... for a stream that is open: the close request for a vBucket whose stream has ended is answered "no such
+		// stream", and gocbcore synthesises no end notification then (memdclient.go: FindOpenStream finds nothing)
+		cl.closeNotFound = true
 		cl.mu.Unlock()
 	}
 	d := godcp.VerifNewDcp(cfg, client, cons, version, &couchbase.BucketInfo{BucketType: "membase"})
@@ -286,6 +295,40 @@ func c13Child(raw json.RawMessage) any {
 			cl.mu.Lock()
 			res.OpenVbs = len(cl.obs)
 			cl.mu.Unlock()
+		}
+		if sc.ScrapeInClose && sc.API && client == couchbase.Client(cl) && res.StreamWasOpen {
+			gate := make(chan struct{})
+			var arrived atomic.Bool
+			cl.mu.Lock()
+			cl.seqGate = func(aware bool) {
+				if aware && arrived.CompareAndSwap(false, true) {
+					<-gate
+				}
+			}
+			cl.mu.Unlock()
+			go func() {
+				if resp, err := http.Get(fmt.Sprintf("http://127.0.0.1:%d/metrics", cfg.API.Port)); err == nil {
+					_, _ = io.Copy(io.Discard, resp.Body)
+					resp.Body.Close()
+				}
+			}()
+			for dl := time.Now().Add(3 * time.Second); !arrived.Load() && time.Now().Before(dl); {
+				time.Sleep(200 * time.Microsecond)
+			}
+			if arrived.Load() {
+				hand.hook("ASStop", func() {
+					close(gate)
+					time.Sleep(8 * time.Millisecond) // the scrape finishes its collection while Close() is still in here
+				})
+				res.Note += " scrape_in_flight_at_close"
+			} else {
+				cl.mu.Lock()
+				cl.seqGate = nil
+				cl.mu.Unlock()
+				arrived.Store(true)
+				close(gate)
+			}
+			t0 = time.Now()
 		}
 		if sc.StreamsEnd && client == couchbase.Client(cl) {
 			for v := 0; v < sc.NVb; v++ {
@@ -615,6 +658,9 @@ func c13Gen(rt *rapid.T) c13Scenario {
 		sc.StreamsEnd = true
 		sc.PingFails = false
 	}
+	if !sc.Mitigate && !strings.HasPrefix(sc.State, "rebalance_") && !sc.StreamsEnd && rapid.IntRange(0, 3).Draw(rt, "scrapeinclose") == 0 {
+		sc.ScrapeInClose, sc.API = true, true
+	}
 	sc.CBMember = sc.Mitigate && sc.State != "gate_blocked" && !strings.HasPrefix(sc.State, "rebalance_") && rapid.IntRange(0, 3).Draw(rt, "cbmember") > 0
 	if sc.State == "monitor_inflight" {
 		sc.CBMember = true
@@ -686,6 +732,9 @@ func TestC13_Shutdown(t *testing.T) {
 		}
 		if scs[i].StreamsEnd {
 			labs = append(labs, "stopped_by_stream_ends")
+		}
+		if scs[i].ScrapeInClose {
+			labs = append(labs, "scrape_in_flight_at_close")
 		}
 		if scs[i].EndedBefore != "" {
 			labs = append(labs, "stream_ended_for_good_before_close")
